@@ -1565,6 +1565,85 @@ def gen_shapes2():
     return out
 
 
+def gen_data():
+    """Data-dependent corners (round 16 of the seeded changes): every binary operator against the
+    literals 0 and 1 (and false / true over bool), the literal on the right and on the left, of the
+    operand's own type (well-formed: nothing may be simplified away, renumbered or re-bracketed) and
+    of ANOTHER integer type (ill-formed: no operator, no literal value excuses a type mismatch);
+    each followed by a second operation so that register numbering after it is observed; ordering
+    comparisons in conditions over every primitive type (all are allowed); a bare literal `false`
+    / `true` as an if condition with an else holding a nested if; names that collide when keys
+    are built by concatenation (type `Cfg.hi` + attribute `max` against type `Cfg` + attribute
+    `hi.max`; value `p.hi` against value `p`)."""
+    out = []
+    one = lambda g: ["ret", ["expr", ["prim", ["pv", "i32", 1]]]]
+    for op in OPS:
+        for ty, lits, other in (("i32", (0, 1), "u64"), ("bool", (0, 1), None), ("f64", (0, 0x3FF0000000000000), None)):
+            for lit in lits:
+                for variant in ("right", "left", "right-other", "head-chain"):
+                    if variant == "right-other" and other is None:
+                        continue
+                    g = Gen(0)
+                    a = lambda: ["name", g.ident("a")]
+                    l = ["prim", ["pv", other if variant == "right-other" else ty, lit]]
+                    if variant in ("right", "right-other"):
+                        e = ["expr", a(), [op, l]]
+                    elif variant == "left":
+                        e = ["expr", l, [op, a()]]
+                    else:
+                        # the literal heads a chain of two operators of different priority classes
+                        e = ["expr", l, [op, a()], ["Multiply" if op != "Multiply" else "Plus", a()]]
+                    body = [["let", g.ident("b"), 0, ["noty"], e],
+                            ["let", g.ident("c"), 0, ["noty"], ["expr", a(), ["Plus", a()]]], one(g)]
+                    f = ["fn", g.ident("f"), ["params", [g.ident("a"), ["prim", ty]]], ["prim", "i32"], ["body"] + body]
+                    out.append((["program", f], {"stream": "data", "family": "op-literal", "op": op, "ty": ty, "lit": lit, "variant": variant}))
+    for ty in PRIMS:
+        for c in CMPS:
+            g = Gen(0)
+            cond = ["logic", ["lc", ["expr", ["name", g.ident("open")]], c, ["expr", ["name", g.ident("armed")]]]]
+            body = [["if", ["ifs", cond, ["ifbody", ["ret", ["expr", ["prim", ["pv", "i32", 1]]]]], ["noelse"], ["noelif"]]], one(g)]
+            f = ["fn", g.ident("gate"), ["params", [g.ident("open"), ["prim", ty]], [g.ident("armed"), ["prim", ty]]], ["prim", "i32"], ["body"] + body]
+            out.append((["program", f], {"stream": "data", "family": "cmp-type", "ty": ty, "cmp": c}))
+    for lit in (0, 1):
+        for where in ("fn", "loop"):
+            for shape in ("else-if", "if-if", "elif-else-if"):
+                g = Gen(0)
+                lt = lambda: ["single", ["expr", ["prim", ["pv", "bool", lit]]]]
+                let = lambda n: ["let", g.ident(n), 0, ["noty"], ["expr", ["prim", ["pv", "bool", 1]]]]
+                nested = lambda n: ["if", ["ifs", ["single", ["expr", ["prim", ["pv", "bool", 1]]]], ["ifbody", let(n)], ["noelse"], ["noelif"]]]
+                if shape == "else-if":
+                    st = ["if", ["ifs", lt(), ["ifbody", let("x")], ["else", ["ifbody", nested("y")]], ["noelif"]]]
+                elif shape == "if-if":
+                    st = ["if", ["ifs", lt(), ["ifbody", nested("y")], ["noelse"], ["noelif"]]]
+                else:
+                    inner = ["ifs", lt(), ["ifbody", let("x")], ["else", ["ifbody", nested("y")]], ["noelif"]]
+                    st = ["if", ["ifs", ["single", ["expr", ["name", g.ident("c")]]], ["ifbody"], ["noelse"], ["elif", inner]]]
+                body = [st] if where == "fn" else [["loop", st, ["break"]]]
+                f = ["fn", g.ident("f"), ["params", [g.ident("c"), ["prim", "bool"]]], ["prim", "i32"], ["body"] + body + [one(g)]]
+                out.append((["program", f], {"stream": "data", "family": "literal-condition", "lit": lit, "where": where, "shape": shape}))
+    # concatenated keys
+    U = lambda n, attrs: ("u", n, attrs)
+    P_ = lambda x: ("p", x)
+    for k in range(3):
+        g = Gen(0)
+        Cfg = U("Cfg", [("lo", P_("u8")), ("hi.max", P_("u8"))])
+        CfgHi = U("Cfg.hi", [("max", P_("u8")), ("min", P_("u8"))])
+        decls = [["struct", g.ident(t[1])] + [["attr", g.ident(a), g.ty(at)] for a, at in t[2]] for t in (Cfg, CfgHi)]
+        fld = lambda v, a: ["expr", ["field", g.ident(v), g.ident(a)]]
+        if k == 0:
+            params = [[g.ident("p"), g.ty(Cfg)], [g.ident("q"), g.ty(CfgHi)]]
+            body = [["let", g.ident("a"), 0, ["noty"], fld("q", "max")], ["ret", fld("p", "hi.max")]]
+        elif k == 1:
+            params = [[g.ident("p"), g.ty(Cfg)], [g.ident("q"), g.ty(CfgHi)]]
+            body = [["let", g.ident("a"), 0, ["noty"], fld("p", "hi.max")], ["ret", fld("q", "min")]]
+        else:
+            params = [[g.ident("p"), g.ty(Cfg)], [g.ident("p.hi"), g.ty(CfgHi)]]
+            body = [["let", g.ident("a"), 0, ["noty"], fld("p.hi", "max")], ["ret", fld("p", "hi.max")]]
+        f = ["fn", g.ident("pick"), ["params"] + params, ["prim", "u8"], ["body"] + body]
+        out.append((["program"] + decls + [f], {"stream": "data", "family": "concatenated-keys", "k": k}))
+    return out
+
+
 def gen_wide():
     """Wide rather than deep (limits on counts show up here): 70 parameters and arguments, 70 functions
     calling each other, 300 shadowing lets in one block, a struct with 70 attributes, a 300-character
